@@ -76,6 +76,10 @@ impl From<TransportError> for ConnectionStateError {
     fn from(e: TransportError) -> Self { ConnectionStateError::TransportError(e) }
 }
 
+/// `?` on the writer's error in send_open: thiserror's #[from] on ConnectionStateError::TransportError (R16)
+pub trait ErrInto<T>: Sized { spec fn conv(self) -> T; fn err_into(self) -> (r: T) ensures r == self.conv(); }
+impl ErrInto<ConnectionStateError> for TransportError { open spec fn conv(self) -> ConnectionStateError { ConnectionStateError::TransportError(self) } fn err_into(self) -> (r: ConnectionStateError) { ConnectionStateError::TransportError(self) } }
+
 impl Frame {
 //@@ fn file=fe2o3-amqp/src/frames/amqp.rs impl=`impl Frame` name=new
 //@@ param channel : u16
@@ -147,6 +151,7 @@ impl Connection {
             ConnectionState::ClosePipe => r is Ok && final(self).local_state == ConnectionState::CloseSent,
             _ => r is Err && final(self).local_state == old(self).local_state && final(self).agreed_channel_max == old(self).agreed_channel_max,
         },                                                                                                             // [C12.open-received] the peer's open is accepted only in the states of AMQP 2.4.6 that expect it; otherwise it is an error and nothing changes
+        r is Err ==> !(r->Err_0 is RemoteClosed) && !(r->Err_0 is RemoteClosedWithError),                             // [C12.local-failure-is-not-a-remote-close]
         r is Ok ==> final(self).agreed_channel_max == (if old(self).local_open.channel_max.0 <= open.channel_max.0 { old(self).local_open.channel_max.0 } else { open.channel_max.0 }),   // [C17.channel-max.agreed] agreed channel-max == min(local, remote)
         r is Ok ==> final(self).remote_open == Some(open),
         final(self).session_by_outgoing_channel == old(self).session_by_outgoing_channel,
@@ -185,6 +190,7 @@ impl Connection {
 //@@ end
 
 //@@ fn file=fe2o3-amqp/src/connection/mod.rs impl=`impl endpoint::Connection for Connection` name=send_open
+//@@ qmark
 //@@ generics
 //@@ nowhere
 //@@ param writer : &mut FrameSink
@@ -197,6 +203,7 @@ impl Connection {
             ConnectionState::HeaderSent => final(self).local_state == ConnectionState::OpenPipe,
             _ => false,
         }),                                                                                                            // [C12.open-sent] sending the open succeeds only from the three states that precede it, and leaves them: so it succeeds at most once
+        r is Err ==> !(r->Err_0 is RemoteClosed) && !(r->Err_0 is RemoteClosedWithError),                             // [C12.local-failure-is-not-a-remote-close] a failure to send the open is never reported as the peer having closed
         r is Err ==> final(self).local_state == old(self).local_state,
         final(writer).sent@ == old(writer).sent@ || final(writer).sent@ == old(writer).sent@.push(Frame { channel: 0, body: FrameBody::Open(old(self).local_open) }),   // [C12.open-frame] whatever the outcome, nothing but (at most one) local Open is written
         *final(self) == (Connection { local_state: final(self).local_state, ..*old(self) }),
